@@ -9,7 +9,6 @@ import (
 	"crypto/sha256"
 	"fmt"
 	mrand "math/rand"
-	"os"
 	"strings"
 	"sync"
 	"sync/atomic"
